@@ -396,8 +396,8 @@ def r5(ctx: Ctx) -> None:
             ctx.check(len(facs) == 3 and len(vol_vec) == 1 and len(vol_col) == 1 and len(eye) == 1, f, ch[0].node, "covariance = vol (row) * corr * vol (column)", "vol * corr_matrix * vol.reshape(-1, 1)", " * ".join(short(t)[:50] for t in facs))
             ret = ret_n
             dots = _find(ret, lambda s: _is_call(s, "dot"))
-            ok = bool(dots) and all(d[2][0] == NV(ch[0].term) and _is_call(d[2][1], "standard_normal") and key(d[2][1][1]).startswith("self._np_prng") for d in dots)
-            ctx.check(ok, f, f.node, "the factor multiplies standard normals from the left (L @ Z), drawn from the instance generator", "np.dot(cholesky_matrix, self._np_prng.standard_normal(...))", short(dots[0])[:120] if dots else "no product")
+            ok = bool(dots) and all(d[2][0] == NV(ch[0].term) and _is_call(d[2][1], "standard_normal") for d in dots)
+            ctx.check(ok, f, f.node, "the factor multiplies standard normals from the left (L @ Z)", "np.dot(cholesky_matrix, <generator>.standard_normal(...))", short(dots[0])[:120] if dots else "no product")
             if dots:
                 sz = dict(dots[0][2][1][3]).get("size")
                 ok = sz is not None and sz[0] == "tuple" and key(sz[1][1]) == "length" and _is_call(sz[1][0], "len") and sz[1][0][2][0] == cid
